@@ -329,6 +329,57 @@ def r6(ctx):
         raise AnalysisBroken('C20.R6: only %d at() calls found' % n)
 
 
+def r9(ctx):
+    ctx.rule('C20.R9', 'a field container is not destroyed while another owner holds its elements: DataFieldSet deletes the '
+             'fields it contains, so a delete of a set (or of a DataField that may be one) is not reachable after the '
+             'elements of that set were appended to another container in the same function, unless the set was emptied '
+             'first (use after free / double free on the decode path otherwise)', minimum=4)
+    fb = ctx.fb
+    n = 0
+    for fn in fb.functions:
+        if not fn.blocks or not fn.relfile.startswith('src/lib/ebus/'):
+            continue
+        dels = [x for x in fn.all('CXXDeleteExpr') if 'DataField' in (fn.nodes[x].get('delt') or '')]
+        if not dels:
+            continue
+        # element copies: for (e : X->m_fields) other.push_back(e)
+        copied = {}     # set expression key -> node of the copying push_back
+        for l in fn.all('CXXForRangeStmt'):
+            lv = fn.nodes[l]
+            rk = fn.key(lv.get('range', -1))
+            if not rk.endswith('.m_fields') or rk.startswith('this.'):
+                continue
+            var = (lv.get('loopvar') or '').split(':')[-1]
+            for c in fn.walk(l):
+                cv = fn.nodes[c]
+                if cv['k'] == 'CXXMemberCallExpr' and (cv.get('callee') or '').endswith('::push_back') and cv.get('args') and \
+                        fn.key(cv['args'][0]) == var and not fn.key(cv.get('obj', -1)).startswith(rk[:-len('.m_fields')] + '.'):
+                    copied[rk[:-len('.m_fields')]] = c
+        for x in dels:
+            n += 1
+            ctx.touch(fn)
+            op = fn.key(fn.nodes[x]['ch'][0]) if fn.nodes[x].get('ch') else ''
+            bad = None
+            for setk, c in copied.items():
+                # the deleted pointer is the set itself or the pointer it was cast from
+                alias = {setk}
+                for nid, d, rhs, o2, lhs in fn.assignments():
+                    if d and d.split(':')[-1] == setk and rhs is not None:
+                        for y in fn.walk(rhs):
+                            if fn.nodes[y]['k'] == 'DeclRefExpr':
+                                alias.add(fn.nodes[y].get('name'))
+                if op in alias:
+                    p0 = fn.pos(c)
+                    clears = set(m for m in fn.all('CXXMemberCallExpr') if (fn.nodes[m].get('callee') or '').endswith('::clear') and
+                                 fn.key(fn.nodes[m].get('obj', -1)) == setk + '.m_fields')
+                    if p0 is not None and fn.reaches_point(p0[0], fn.pos(x), clears, start_idx=p0[1] + 1):
+                        bad = setk
+            ctx.ob('C20.R9', fn, x, bad is None, 'delete %s in %s' % (op[:40], fn.name.split('::')[-1]),
+                   'the elements of %s were appended to another container before' % bad if bad else 'no element of the deleted container is owned elsewhere')
+    if n < 4:
+        raise AnalysisBroken('C20.R9: only %d field deletions found' % n)
+
+
 def r7(ctx):
     ctx.rule('C20.R7', 'the name index of the message map uses one key schema: add(), remove() and find() derive the direction '
              'suffix of a name key with the same decision order (passive -> "P", else write -> "W", else "R"); a disagreement '
@@ -370,3 +421,8 @@ def run(ctx):
     r5(ctx)
     r6(ctx)
     r7(ctx)
+    r9(ctx)
+    import rules.C14 as c14
+    ctx.borrow(c14.r7, {'C14.R7': 'C20.R8'},
+               'the sizes handed to ::read and memmove in the byte transport are bounded by the buffer capacity and the '
+               'buffered length; a consumed count above the buffered length must not reach the memmove')
